@@ -58,7 +58,8 @@ def c01_quick_pick(kn, pre, op, dd, mm=2):
         # rejected-for-missing-node cells: dedupe irrelevant, rotate
         return dd == (pre + op) % 3 and kn == ["ds", "us", "dm", "um"][(pre + op) % 4]
     if single:
-        return dd == 2 and kn == ("ds" if (pre + op) % 2 == 0 else "us")
+        # both single-edge kinds: orientation / name-order effects only show on undirected graphs
+        return dd == 2
     return dd == (pre + op) % 3 and kn == ("dm" if (pre + op) % 2 == 1 else "um")
 
 def c01_cases():
@@ -85,22 +86,29 @@ def c01_cases():
                     continue   # would need 5 nodes (model bound MAXN = 4)
                 for dd in range(3):
                   for mm in c01_mm_values(pre, op):
+                   for sl in ((1, 2, 3) if (op < 9 and OPS[op][0] == OPS[op][1]) else (0,)):
                     tier = "quick" if ((pre, op) in quick and c01_quick_pick(kn, pre, op, dd, mm)) else ("thorough" if c01_cost_class(kn, pre, op, dd, mm) == "cheap" else "full")
                     if tier == "thorough" and kn in ("dm", "um") and dd != (pre + op) % 3:
                         tier = "full"   # multi-edge kinds ignore the dedupe strategy: one strategy per cell in the thorough tier
-                    name = "c01_step_%s_p%d_o%02d_d%d_m%d" % (kn, pre, op, dd, mm)
-                    call = "c01_step(%s, %s, %d, %d, %d, %d)" % (B[d], B[m], pre, op, dd, mm)
-                    if mm == 1 or (c01_is_dup(kn, pre, op) and dd == 0 and kn in ("ds", "us")):
+                    if sl in (2, 3) and tier == "full" and c01_cost_class(kn, pre, op, 2, mm) == "cheap":
+                        tier = "thorough"   # a rejected / dropped self-loop touches nothing: cheap under every dedupe strategy
+                    name = "c01_step_%s_p%d_o%02d_d%d_m%d_l%d" % (kn, pre, op, dd, mm, sl)
+                    call = "c01_step(%s, %s, %d, %d, %d, %d, %d)" % (B[d], B[m], pre, op, dd, mm, sl)
+                    rejected = (mm == 1 and sl != 3 and sl != 2) or (mm == 1 and sl == 0) or (c01_is_dup(kn, pre, op) and dd == 0 and kn in ("ds", "us") and sl in (0, 1)) or sl == 2
+                    if sl == 3:
+                        covers = ["op accepted"]        # dropped silently: Ok
+                    elif rejected:
                         covers = ["op rejected"]
                     else:
                         covers = ["op accepted"]
-                    what = "kind=%s pre-state #%d, operation #%d, dedupe=%d, missing-node strategy %s; remaining policy fields (self_loops x self-loop strategy%s), weights and attributes symbolic" % (kn, pre, op, dd, ["Create", "Error", "symbolic"][mm], " x missing-node" if mm == 2 else "")
+                    what = "kind=%s pre-state #%d, operation #%d, dedupe=%d, missing-node strategy %s, self-loop policy %s; remaining policy fields, weights and attributes symbolic" % (
+                        kn, pre, op, dd, ["Create", "Error", "symbolic"][mm], ["symbolic", "allowed", "rejected", "dropped"][sl])
                     out.append((name, call, tier, covers, what))
     # public getters + full O(n^2) representation invariant after a concrete-policy operation
     for (kn, d, m) in KINDS:
         for (pre, op) in [(2, 0), (2, 1), (3, 8), (6, 3), (1, 2), (2, 7), (2, 4)]:
             for dd in range(3):
-                tier = "quick" if ((pre, op) in [(2, 1), (6, 3)] and dd == 2 and kn in ("ds", "us")) or ((pre, op) == (2, 7) and dd == 0 and kn == "um") else "thorough"
+                tier = "quick" if ((pre, op) == (2, 7) and dd == 0 and kn == "um") else ("thorough" if kn in ("dm", "um") else "full")
                 name = "c01_getters_%s_p%d_o%02d_d%d" % (kn, pre, op, dd)
                 call = "c01_getters(%s, %s, %d, %d, %d)" % (B[d], B[m], pre, op, dd)
                 out.append((name, call, tier, [], "kind=%s pre-state #%d, add_edge #%d under concrete permissive policies with dedupe=%d; weights/attributes symbolic; public getters and the full representation invariant" % (kn, pre, op, dd)))
@@ -112,7 +120,7 @@ def c01_cases():
                 tier = "thorough"
             name = "c01_batch_%s_p%d_o%02d_o%02d_%s" % (kn, pre, o1, o2, "edges" if which == 0 else "tuples")
             call = "c01_batch(%s, %s, %d, %d, %d, %d, %d, %d)" % (B[d], B[m], pre, o1, o2, which, 2 if kn in ("ds", "us") else (pre + o1 + o2) % 3, 1 if (c01_needs_create(pre, o1) or c01_needs_create(pre, o2)) else 2)
-            out.append((name, call, tier, ["op accepted"],
+            out.append((name, call, tier, ["op rejected"] if (c01_needs_create(pre, o1) or c01_needs_create(pre, o2)) else ["op accepted"],
                         "kind=%s pre-state #%d, batch of two edges (#%d,#%d) via %s; policies symbolic" % (kn, pre, o1, o2, "add_edges" if which == 0 else "add_edge_tuples")))
     for (kn, d, m) in KINDS:
         for dd in range(3):
@@ -319,6 +327,9 @@ def c11_cases():
 
 def c05_cases():
     out = []
+    for n in range(0, 6):
+        out.append(("c05_rescale_n%d" % n, "c05_rescale(%d)" % n, "quick" if n in (0, 2, 3, 5) else "thorough", ["normalized", "halved"] if n > 0 else [],
+                    "rescale on a vector of length %d with arbitrary finite values; normalized and directed symbolic" % n))
     for dag in range(8):
         if dag & 4 and not dag & 1:
             continue
@@ -335,9 +346,14 @@ def c05_cases():
 
 def c06_cases():
     out = []
+    for n in range(1, 5):
+        for r in range(1, n + 1):
+            out.append(("c06_formula_n%d_r%d" % (n, r), "c06_formula(%d, %d)" % (n, r), "quick" if (n, r) in ((1, 1), (2, 2), (3, 2), (4, 3), (4, 1)) else "thorough", ["wf_improved", "plain"],
+                        "get_node_centrality for n = %d nodes of which r = %d reach the node; integer distances 1..3 and the WF flag symbolic" % (n, r)))
     dq = {0b0000111, 0b0001011, 0b0000011}
     for mask in (0b0000111, 0b0001011, 0b0111111, 0b0000011, 0b0010101, 0b0000000, 0b1000111):
-        out.append(("c06_pub_d_m%03d" % mask, "c06_public_unweighted(true, %d)" % mask, "quick" if mask in dq else "thorough", ["wf_improved", "plain"],
+        # directed: closeness reverses the graph first (new_from_nodes_and_edges with 2-3 edges): measured > 25 min
+        out.append(("c06_pub_d_m%03d" % mask, "c06_public_unweighted(true, %d)" % mask, "full" if bin(mask).count("1") >= 2 else ("quick" if mask in (0b0000001, 0b0000000) else "thorough"), ["wf_improved", "plain"],
                     "directed topology mask %s: BFS distances and closeness_centrality(hop counts, incoming distance) vs the definition; wf_improved symbolic" % format(mask, "07b")))
     for mask in range(16):
         out.append(("c06_pub_u_m%02d" % mask, "c06_public_unweighted(false, %d)" % mask, "quick" if mask in (0b0011, 0b0111, 0b0001) else "thorough", ["wf_improved", "plain"],
@@ -365,10 +381,20 @@ def c20_cases():
                     for gi, gname in enumerate(C20_GROUPS):
                         # quick: each (shape, group) cell of the quick list once, on a rotating kind
                         pick = (s, gi) in quick and ((kn == "usl" and gi in (0, 1, 2, 6)) or (kn == "dsl" and gi in (3, 4, 5)) or (kn == "uml" and gi == 7 and s == 4) or (kn == "dsn" and s in (0, 1) and gi in (2, 3)))
-                        heavy = gi == 5 and s in (6,)
+                        # measured > 25 min: single_source on graphs with an edge (shape 5/6), undirected cluster functions on the triangle
+                        heavy = (gi == 5 and s in (5, 6)) or (gi in (0, 1) and s == 6 and not d)
                         tier = "quick" if pick else ("full" if heavy else "thorough")
                         out.append(("c20_%s_s%d_%s" % (kn, s, gname), "c20_harness!(c20_%s_s%d_%s, %s, %s, %s, %d, %d);" % (kn, s, gname, B[d], B[m], B[l], s, gi), tier, ["reached end"],
                                     "kind=%s degenerate shape #%d: %s functions return a value or an Error (no panic / overflow)" % (kn, s, gname)))
+                # weighted single_source with a tie and (shape 6 on self-loop kinds) a zero-weight self-loop; options symbolic
+                for s in (5, 6):
+                    if s == 6 and not l:
+                        continue
+                    if m:
+                        continue
+                    tier = "full"   # measured > 25 min (BinaryHeap search with symbolic options)
+                    out.append(("c20_%s_s%d_weightedpaths" % (kn, s), "c20_harness!(c20_%s_s%d_weightedpaths, %s, %s, %s, %d, 8);" % (kn, s, B[d], B[m], B[l], s), tier, ["reached end"],
+                                "kind=%s: weighted single_source on a constant tie graph%s, target / cutoff / first_only / with_paths symbolic: returns without panic" % (kn, " with a zero-weight self-loop" if s == 6 else "")))
     return out
 
 def emit():
